@@ -514,6 +514,11 @@ def _check(c):
     c.extra['trees_mixing_temperature_bases'] = known_mix
     c.sample({'op': 'L2', 'input': texts[5], 'impl': ev[5], 'base_units': zz[5][1][-80:]})
 
+    # ---- configurations: the dimension rules do not depend on the separator style or the C/F mode
+    k_cfg = 500 if c.tier == 'quick' else 5000
+    U.config_sweep(c, texts[:k_cfg] + ["(%s) to 'zz'" % s for s in texts[:k_cfg // 2]] + ['1.5 km + 2.5 s', '2.5 m + 1.5 cm', '(1.5 kg) * (2.5 m) to J', 'ln(2.5 m)'],
+                   'dimension-check')
+
     # ---- L1: raw evaluator result vs the extracted model
     k = min(len(trees), 1200 if c.tier == 'quick' else 12000)
     idx = list(range(len(corpus))) + r.sample(range(len(corpus), len(trees)), k - len(corpus)) if len(trees) > k else list(range(len(trees)))
